@@ -34,7 +34,7 @@ func checkAcceptedImportHasOutbound(c *core.Ctx) {
 		need = append(need, s)
 	}
 	c.Note(sprintf("ImportExTransfer: %d possibly-accepting return(s) carry a message, %d are the no-message-yet return", len(need), skipped))
-	c.Floor("accepting returns of ImportExTransfer that carry a message", len(need), 3)
+	c.Floor("accepting returns of ImportExTransfer that carry a message", len(need), 1)
 	eng.MustPassCall(c, rule, ie, "outbound MakeTransaction (entrance/btc/ripple)", eng.CallPred(mt, btcMT, ripMT), need, "return with a possibly-nil error", nil)
 	for _, g := range []eng.NamedGuard{eng.ErrNilOf("MakeDepositProposal", mdp)} {
 		eng.Dominates(c, rule, ie, g, need, "return with a possibly-nil error", nil)
